@@ -90,6 +90,17 @@ pub fn add_realism(rng: &mut Rng, tree: &mut TreeSpec) -> Vec<String> {
         }
     }
     let rel = |p: &str| format!("/{}", p.strip_prefix(&format!("{}/", root)).unwrap_or(p));
+    // the served directory's own name again inside it (docroot /app with /downloads/app.html, docroot
+    // /srv/www with a www/ directory): string surgery on absolute paths goes wrong exactly there
+    if rng.chance(1, 4) {
+        let own = root.rsplit('/').next().unwrap_or("root").to_string();
+        let d = rng.pick(&dirs).clone();
+        for p in [format!("{}/{}.html", d, own), format!("{}/{}/page.html", root, own), format!("{}/v2/{}.html", root, own), format!("{}/{}-setup.html", d, own), format!("{}/{}/{}/index.html", root, own, own)] {
+            if rng.chance(1, 2) && push_file(tree, p.clone(), Content::Gen { marker: format!("MARK-{:08x}-own-\n", rng.next() as u32), len: rng.range(20, 200), seed: rng.next(), binary: false }) {
+                added.push(rel(&p));
+            }
+        }
+    }
     for _ in 0..rng.range(1, 4) {
         match rng.below(9) {
             0 | 1 if !files.is_empty() => {
@@ -277,6 +288,72 @@ pub const SWITCH_HEADERS: &[(&str, &str)] = &[
     ("Accept-Push-Policy", "fast-load"), ("Sec-WebSocket-Version", "13"), ("Upgrade", "h2c"), ("HTTP2-Settings", "AAMAAABkAARAAAAAAAIAAAAA"), ("Alt-Used", "a.example:443"), ("Keep-Alive", "timeout=600"), ("Proxy-Connection", "keep-alive"),
     ("Accept-Ranges", "none"), ("Vary", "*"), ("Cache-Control", "public, max-age=31536000"), ("X-Content-Type-Options", "off"), ("X-Frame-Options", "ALLOWALL"), ("Content-Security-Policy", "default-src *"),
 ];
+
+/// Header *sets* as browsers send them: the fetch-metadata triple (site, mode, destination, with
+/// the user-activation flag and the upgrade request on navigations) never arrives one header at a
+/// time. Each entry is one (name, value) whose value carries the further lines of the set.
+pub const FETCH_BUNDLES: &[(&str, &str)] = &[
+    ("Sec-Fetch-Site", "none\r\nSec-Fetch-Mode: navigate\r\nSec-Fetch-Dest: document\r\nSec-Fetch-User: ?1\r\nUpgrade-Insecure-Requests: 1"),
+    ("Sec-Fetch-Site", "cross-site\r\nSec-Fetch-Mode: navigate\r\nSec-Fetch-Dest: document\r\nSec-Fetch-User: ?1\r\nUpgrade-Insecure-Requests: 1\r\nReferer: http://other.example/"),
+    ("Sec-Fetch-Site", "same-site\r\nSec-Fetch-Mode: navigate\r\nSec-Fetch-Dest: document\r\nUpgrade-Insecure-Requests: 1"),
+    ("Sec-Fetch-Site", "cross-site\r\nSec-Fetch-Mode: navigate\r\nSec-Fetch-Dest: iframe\r\nUpgrade-Insecure-Requests: 1\r\nReferer: http://other.example/"),
+    ("Sec-Fetch-Site", "same-origin\r\nSec-Fetch-Mode: navigate\r\nSec-Fetch-Dest: iframe\r\nUpgrade-Insecure-Requests: 1"),
+    ("Sec-Fetch-Site", "cross-site\r\nSec-Fetch-Mode: navigate\r\nSec-Fetch-Dest: frame"),
+    ("Sec-Fetch-Site", "cross-site\r\nSec-Fetch-Mode: navigate\r\nSec-Fetch-Dest: embed"),
+    ("Sec-Fetch-Site", "cross-site\r\nSec-Fetch-Mode: navigate\r\nSec-Fetch-Dest: object"),
+    ("Sec-Fetch-Site", "cross-site\r\nSec-Fetch-Mode: navigate\r\nSec-Fetch-Dest: fencedframe"),
+    ("Sec-Fetch-Site", "cross-site\r\nSec-Fetch-Mode: no-cors\r\nSec-Fetch-Dest: image\r\nAccept: image/avif,image/webp,*/*"),
+    ("Sec-Fetch-Site", "cross-site\r\nSec-Fetch-Mode: no-cors\r\nSec-Fetch-Dest: script"),
+    ("Sec-Fetch-Site", "same-origin\r\nSec-Fetch-Mode: no-cors\r\nSec-Fetch-Dest: style\r\nAccept: text/css,*/*;q=0.1"),
+    ("Sec-Fetch-Site", "cross-site\r\nSec-Fetch-Mode: cors\r\nSec-Fetch-Dest: font\r\nOrigin: http://a.example"),
+    ("Sec-Fetch-Site", "cross-site\r\nSec-Fetch-Mode: cors\r\nSec-Fetch-Dest: empty\r\nOrigin: http://a.example"),
+    ("Sec-Fetch-Site", "same-origin\r\nSec-Fetch-Mode: cors\r\nSec-Fetch-Dest: empty"),
+    ("Sec-Fetch-Site", "same-origin\r\nSec-Fetch-Mode: same-origin\r\nSec-Fetch-Dest: empty"),
+    ("Sec-Fetch-Site", "cross-site\r\nSec-Fetch-Mode: no-cors\r\nSec-Fetch-Dest: video\r\nRange: bytes=0-"),
+    ("Sec-Fetch-Site", "cross-site\r\nSec-Fetch-Mode: no-cors\r\nSec-Fetch-Dest: audio\r\nRange: bytes=0-1"),
+    ("Sec-Fetch-Site", "same-origin\r\nSec-Fetch-Mode: websocket\r\nSec-Fetch-Dest: websocket\r\nUpgrade: websocket\r\nConnection: Upgrade\r\nSec-WebSocket-Key: dGhlIHNhbXBsZSBub25jZQ==\r\nSec-WebSocket-Version: 13"),
+    ("Sec-Fetch-Site", "same-origin\r\nSec-Fetch-Mode: same-origin\r\nSec-Fetch-Dest: worker"),
+    ("Sec-Fetch-Site", "same-origin\r\nSec-Fetch-Mode: same-origin\r\nSec-Fetch-Dest: serviceworker\r\nService-Worker: script"),
+    ("Sec-Fetch-Site", "cross-site\r\nSec-Fetch-Mode: cors\r\nSec-Fetch-Dest: manifest"),
+    ("Sec-Fetch-Site", "cross-site\r\nSec-Fetch-Mode: no-cors\r\nSec-Fetch-Dest: empty\r\nPurpose: prefetch\r\nSec-Purpose: prefetch"),
+    ("Sec-Fetch-Site", "cross-site\r\nSec-Fetch-Mode: cors\r\nSec-Fetch-Dest: empty\r\nOrigin: http://a.example\r\nAccess-Control-Request-Method: PUT\r\nAccess-Control-Request-Headers: content-type\r\nAccess-Control-Request-Private-Network: true"),
+    ("Sec-Fetch-Site", "cross-site\r\nSec-Fetch-Mode: navigate\r\nSec-Fetch-Dest: iframe\r\nOrigin: null\r\nSec-Fetch-Storage-Access: inactive"),
+    ("User-Agent", "Mozilla/5.0 (X11; Linux x86_64) AppleWebKit/537.36 (KHTML, like Gecko) Chrome/126.0.0.0 Safari/537.36\r\nsec-ch-ua: \"Chromium\";v=\"126\", \"Not-A.Brand\";v=\"8\"\r\nsec-ch-ua-mobile: ?0\r\nsec-ch-ua-platform: \"Linux\"\r\nAccept: text/html,application/xhtml+xml,application/xml;q=0.9,image/avif,image/webp,*/*;q=0.8\r\nAccept-Encoding: gzip, deflate, br, zstd\r\nAccept-Language: en-US,en;q=0.9\r\nSec-Fetch-Site: none\r\nSec-Fetch-Mode: navigate\r\nSec-Fetch-User: ?1\r\nSec-Fetch-Dest: document\r\nUpgrade-Insecure-Requests: 1\r\nConnection: keep-alive"),
+    ("If-Modified-Since", "Sun, 13 Sep 2020 12:26:40 GMT\r\nIf-None-Match: \"abc\"\r\nCache-Control: max-age=0"),
+    ("If-Modified-Since", "Thu, 31 Dec 2020 00:00:00 GMT"), ("If-Modified-Since", "Tue, 31 Dec 2024 12:00:00 GMT"), ("If-Modified-Since", "Thu, 29 Feb 2024 12:00:00 GMT"),
+    ("If-Modified-Since", "Thu, 01 Jan 1970 00:00:00 GMT"), ("If-Modified-Since", "Sat, 31 Dec 2022 23:59:59 GMT"), ("If-Unmodified-Since", "Thu, 31 Dec 2020 00:00:00 GMT"),
+    ("If-Range", "Thu, 31 Dec 2020 00:00:00 GMT\r\nRange: bytes=0-3"),
+];
+
+const SITES: [&str; 5] = ["cross-site", "same-site", "same-origin", "none", "Cross-Site"];
+const MODES: [&str; 6] = ["navigate", "cors", "no-cors", "same-origin", "websocket", "nested-navigate"];
+const DESTS: [&str; 24] = ["document", "iframe", "frame", "embed", "object", "fencedframe", "image", "script", "style", "font", "audio", "video", "track", "worker", "sharedworker", "serviceworker", "manifest", "empty", "report", "xslt", "audioworklet", "paintworklet", "webidentity", "json"];
+
+/// a fetch-metadata set from the whole product site x mode x destination, as further header lines
+pub fn fetch_metadata(rng: &mut Rng) -> Vec<(String, String)> {
+    let mut v = vec![
+        ("Sec-Fetch-Site".to_string(), rng.pick(&SITES).to_string()),
+        ("Sec-Fetch-Mode".to_string(), rng.pick(&MODES).to_string()),
+        ("Sec-Fetch-Dest".to_string(), rng.pick(&DESTS).to_string()),
+    ];
+    if rng.chance(1, 3) {
+        v.push(("Sec-Fetch-User".into(), "?1".into()));
+    }
+    if rng.chance(1, 3) {
+        v.push(("Upgrade-Insecure-Requests".into(), "1".into()));
+    }
+    if rng.chance(1, 3) {
+        v.push(("Origin".into(), rng.pick(&["http://a.example", "null", "https://other.example"]).to_string()));
+    }
+    if rng.chance(1, 4) {
+        v.push(("Referer".into(), "http://other.example/page".into()));
+    }
+    // (order as sent differs between browsers)
+    if rng.chance(1, 2) {
+        v.reverse();
+    }
+    v
+}
 
 /// extension methods a preflight may name
 pub const EXTENSION_METHODS: &[&str] = &["PROPFIND", "REPORT", "PURGE", "MKCOL", "LOCK", "SEARCH", "QUERY", "get", "Get", "", "GET,POST", "*", "BREW"];
